@@ -297,7 +297,11 @@ fn case(rng: &mut Rng, ctx: &mut Ctx, forced: Option<(&str, Vec<u8>)>) {
         }
         _ => {
             let mut t = http::HeaderMap::new();
-            let g = *rng.pick(&["abc", "-1", "99", "", "1e3", "0x1"]);
+            let g: String = match rng.below(3) {
+                0 => rng.pick(&["abc", "-1", "99", "", "1e3", "0x1", "00", "016", "256", "4294967296"]).to_string(),
+                // every two-digit (and some three-digit) number above the last code
+                _ => rng.range(17, 130).to_string(),
+            };
             t.insert("grpc-status", g.parse().unwrap());
             steps.push(BStep::Trailers(t));
             trailers_garbage = true;
